@@ -84,3 +84,12 @@ Proof.
   - destruct (f a); rewrite IH; auto.
   - auto.
 Qed.
+
+Lemma nth_error_Some_lt {A} (l : list A) k x : nth_error l k = Some x -> k < List.length l.
+Proof. intros H. apply nth_error_Some. congruence. Qed.
+Lemma fold_left_ext_in {A B} (f g : A -> B -> A) (l : list B) : forall a,
+  (forall a b, In b l -> f a b = g a b) -> fold_left f l a = fold_left g l a.
+Proof.
+  induction l as [|b r IH]; intros a H; cbn; auto. rewrite H by (left; auto). apply IH.
+  intros a' b' Hb. apply H. right; auto.
+Qed.
